@@ -244,7 +244,7 @@ func (c09) Exec(plan any, c *Ctx) *Violation {
 	pendingTrueOnPass := false
 	var restored *Cfg
 	for i, op := range p.Ops {
-		clockTick("a step")
+		betweenSteps("a step")
 		op %= nC09Ops
 		step := fmt.Sprintf("#%d %s", i, c09OpNames[op])
 		var err error
@@ -252,21 +252,21 @@ func (c09) Exec(plan any, c *Ctx) *Violation {
 		pan := catch(func() {
 			switch op {
 			case opDebugOn, opDebugOff:
-				m.SetDebug(op == opDebugOn)
+				setDebugN(m, op == opDebugOn)
 			case opReconfNil:
-				err = m.Reconfigure(nil)
+				err = reconfN(m, nil)
 			case opReconfA:
 				cc := p.A.Config()
-				err = m.Reconfigure(&cc)
+				err = reconfN(m, &cc)
 			case opReconfB:
 				cc := p.B.Config()
-				err = m.Reconfigure(&cc)
+				err = reconfN(m, &cc)
 			case opReconfInvalid:
 				cc := bad.Config()
-				err = m.Reconfigure(&cc)
+				err = reconfN(m, &cc)
 			case opRestore:
 				snap := m.Config()
-				err = m.Reconfigure(snap)
+				err = reconfN(m, snap)
 				if err == nil && snap != nil {
 					restored = fromConfig(snap) // what is installed now is what Config() returned, whatever that is (C06 judges it)
 				}
